@@ -733,9 +733,11 @@ VARIANTS = {
           (MF, 'b = c[0] + c[1] * w**2 / (w**2 - c[2]) + c[3] * w**2',
            'b = c[0] + c[1] * float(w)**2 / (w**2 - c[2]) + c[3] * w**2')),
         M('sort-descending',
-          (MT, "dfi = dfi.sort_values(by='similarity_score').reset_index(drop=True)",
-           "dfi = dfi.sort_values(by='similarity_score', ascending=False)"
-           ".reset_index(drop=True)")),
+          (MT, "dfi = dfi.sort_values(by=sort_keys, kind='stable')",
+           "dfi = dfi.sort_values(by=sort_keys, kind='stable', "
+           "ascending=False)")),
+        M('reference-rank-dropped',
+          (MT, "            sort_keys.append('reference_inexact')\n", '')),
         T('formula8-regrouped',
           (MF, 'b = c[0] + c[1] * w**2 / (w**2 - c[2]) + c[3] * w**2',
            'w2 = w * w\n        b = c[3] * w2 + c[0] + w2 * c[1] / (w2 - c[2])')),
@@ -805,8 +807,22 @@ VARIANTS = {
            "self._current_surf_data['index'] = float(data[3])")),
         M('no-image-surface',
           (ZH, "        if self._current_surf >= 0:\n            self.data['surfaces']"
-               "[self._current_surf] = self._current_surf_data\n\n        # sort",
-           '        # sort')),
+               "[self._current_surf] = self._current_surf_data\n\n        # the field",
+           '        # the field')),
+        M('fields-resorted',
+          (ZH, "        self.data['fields']['y'] = tuple(self.data['fields']['y']"
+               "[:num])\n",
+           "        self.data['fields']['y'] = tuple(sorted(self.data['fields']"
+           "['y'][:num]))\n")),
+        M('glass-nearest-name-again',
+          (ZH, "            self._current_surf_data['material'] = \\\n"
+               "                self._exact_material(material)\n",
+           "            self._current_surf_data['material'] = "
+           "Material(material)\n")),
+        M('glass-exactness-test-dropped',
+          (ZH, "        if name.lower() not in names:\n"
+               "            raise ValueError(f'No exact match for material "
+               "{name}')\n", '')),
         M('thickness-token',
           (ZH, "self._current_surf_data['thickness'] = float(data[1])",
            "self._current_surf_data['thickness'] = float(data[2])")),
